@@ -71,7 +71,7 @@ def unit_add_other_logk(twin=False):
     loops = [x for x in A.walk(fn0) if x.get("kind") == "ForStmt"]
     src = open(os.path.join(REPO, TIDY), "rb").read()
     def text(n):
-        b, e = A.src_range_text(n); return re.sub(r"\s+", "", src[b:e].decode("latin1"))
+        b, e = A.src_range_text(n); return A.squeeze(src[b:e].decode("latin1"))
     heads = []
     for lp in loops:
         body = lp["inner"][-1]
@@ -261,7 +261,7 @@ def unit_si_readout(fname, twin=False):
     for x in A.walk(fn0):
         if x.get("kind") == "BinaryOperator" and x.get("opcode") == "=":
             b, e = A.src_range_text(x)
-            t = re.sub(r"\s+", "", src[b:e].decode("latin1"))
+            t = A.squeeze(src[b:e].decode("latin1"))
             if t in ("*si=*iap-phase_ptr->lk", "si=iap-phase_ptr->lk"):
                 tgt = x
     if tgt is None:
